@@ -19,8 +19,25 @@ import tempfile
 from pathlib import Path
 
 
-def sh(cmd, **kw):
-    return subprocess.run(cmd, shell=True, text=True, capture_output=True, **kw)
+def sh(cmd, timeout=None, **kw):
+    try:
+        return subprocess.run(cmd, shell=True, text=True, capture_output=True, timeout=timeout, **kw)
+    except subprocess.TimeoutExpired as e:
+        class R:  # minimal stand-in
+            returncode = 124
+            stdout = (e.stdout or b"").decode() if isinstance(e.stdout, bytes) else (e.stdout or "")
+            stderr = "TIMEOUT"
+        return R()
+
+
+def baseline_signatures(prop):
+    """Signatures the check reports on the unchanged tree (known findings), read from the committed evidence."""
+    import json as _j
+    try:
+        ev = _j.loads((Path("/verif/evidence") / f"{prop}.json").read_text())
+        return set(ev["coverage"].get("known_findings_seen", [])) | set(ev["coverage"].get("violation_signatures", []))
+    except Exception:
+        return set()
 
 
 def main():
@@ -31,6 +48,7 @@ def main():
     ap.add_argument("--tests", default=None)
     ap.add_argument("--jobs", default="14")
     ap.add_argument("--keep", action="store_true")
+    ap.add_argument("--timeout", type=float, default=3600)
     args = ap.parse_args()
 
     patch = Path(args.patch)
@@ -60,12 +78,14 @@ def main():
             p = p.strip()
             if not p:
                 continue
-            r = sh(f"cd /verif && /venv/bin/python -m lmc.run {p} --tier {args.tier}", env=env)
-            viol = [l for l in r.stdout.splitlines() if l.startswith("VIOLATION") or l.strip().startswith("signature")]
+            r = sh(f"cd /verif && /venv/bin/python -m lmc.run {p} --tier {args.tier}", env=env, timeout=args.timeout)
+            sigs = [l.strip()[len("signature: "):] for l in r.stdout.splitlines() if l.strip().startswith("signature:")]
             head = [l for l in r.stdout.splitlines() if l.startswith("[")]
-            print(f"{p}: exit={r.returncode} {head[0] if head else ''}")
-            for l in viol[:8]:
-                print("   ", l)
+            base = baseline_signatures(p)
+            new = [x for x in sigs if x not in base]
+            print(f"{p}: exit={r.returncode} new_signatures={len(new)} {head[0] if head else ''}")
+            for l in new[:40]:
+                print("    signature:", l)
             if r.returncode not in (0, 1):
                 print(r.stderr[-1500:])
             rc_all[p] = r.returncode
